@@ -667,6 +667,23 @@ func (u *unrelSide) RxBytesCounterValue() uint64 { return u.rxb }
 func (u *unrelSide) TxBytesCounterValue() uint64 { return u.tx }
 func (u *unrelSide) IsUnreliable()               {}
 
+// pushUnreliable hands a broker message to the reader of the datagram side (whatever its type).
+func (l *Link) pushUnreliable(m message.Message) bool {
+	if l.unrel == nil || !l.Alive() {
+		return false
+	}
+	b, err := l.encode(m)
+	if err != nil {
+		return false
+	}
+	select {
+	case l.unrel.rx <- b:
+		return true
+	default:
+		return false
+	}
+}
+
 // StallUnreliable / ResumeUnreliable: the datagram side does not take data for a while.
 func (l *Link) StallUnreliable() {
 	if l.unrel == nil {
